@@ -136,6 +136,9 @@ class DULServiceProvider(Thread):
         pdu_cls, event = _PDU_TYPES[b[0:1]]
         pdu = pdu_cls()
         pdu.decode(b)
+        # A PDU that can't be converted to a service primitive is invalid, the
+        #   exception must be raised here rather than in the state machine
+        pdu.to_primitive()
 
         evt.trigger(self.assoc, evt.EVT_PDU_RECV, {"pdu": pdu})
 
